@@ -1739,7 +1739,10 @@ def r20(F, R):
             for a, o in p.conds:
                 if a[0] == "discr" and o == "None" and D.mentions(a, lambda y: y == ("arg", 2)) and "Coloring" not in str(a):
                     key = "None"
-                elif a[0] != "discr" and D.mentions(a, lambda y: y == ("arg", 2)) and (isinstance(o, (int, bool)) or o == "other"):
+                elif a[0] == "bin" and a[1] in ("Eq", "Ne") and D.mentions(a, lambda y: y == ("arg", 2)) and isinstance(a[3], tuple) and a[3][0] == "const" and isinstance(o, bool):
+                    k_ = a[3][1]
+                    key = k_ if (o is True) == (a[1] == "Eq") else "other"     # `level == 0` / `level != 0`
+                elif a[0] != "discr" and a[0] != "bin" and D.mentions(a, lambda y: y == ("arg", 2)) and (isinstance(o, (int, bool)) or o == "other"):
                     key = "other" if o == "other" else int(o)
                     if isinstance(o, bool) and o is True:
                         key = "other"      # a two-way switch on the number: `0` against everything else
